@@ -66,7 +66,8 @@ func GetFilePathsUnderDirectoryWithIgnore(path string, index *store.Index, ignor
 		} else {
 			filePath = fmt.Sprintf("%s/%s", path, file.Name())
 		}
-		if ignore.IsIncluded(filePath, index) {
+		// tracked file is never skipped
+		if _, _, isRegistered := index.GetEntry([]byte(filePath)); !isRegistered && ignore.IsIncluded(filePath, index) {
 			continue
 		}
 
